@@ -193,6 +193,26 @@ func hostileFrames(token *int) []Frame {
 			}
 			out = append(out, Frame{Decodable: true, ID: c09.CanonID(idt), Method: c.m, Params: CtlParams{T: "absent"}, Call: cp,
 				Raw: frame(c.m, idt, ptxt), Class: c.cls + "/" + c09.CanonID(idt).T})
+			if c.cls == "call-ok" && (idt == "" || idt == "3" || idt == `"q"`) {
+				// the same call carrying a meta member (the tracing side channel, map[string]string) of every shape: a span
+				// context that is empty, blank, too short, not base64, of another version; other keys; no keys
+				for _, meta := range []string{`{"SpanContext":""}`, `{"SpanContext":"\r\n"}`, `{"SpanContext":"AA=="}`, `{"SpanContext":"AAAA"}`,
+					`{"SpanContext":"!!not-base64!!"}`, `{"SpanContext":"/////////////////////////////////////w=="}`, `{"other":"x"}`, `{}`,
+					`{"SpanContext":"AAAAAAAAAAAAAAAAAAAAAAAAAAAAAAAAAAAAAAA="}`} {
+					*token++
+					p2 := fmt.Sprintf("[%d,1]", *token)
+					raw := frame(c.m, idt, p2)
+					raw = raw[:len(raw)-1] + `,"meta":` + meta + "}"
+					var raws []json.RawMessage
+					json.Unmarshal([]byte(p2), &raws)
+					cp2 := c09.Params{T: "arr", Elems: [][]string{}}
+					for _, r := range raws {
+						cp2.Elems = append(cp2.Elems, api.DecodesInto(string(r)))
+					}
+					out = append(out, Frame{Decodable: true, ID: c09.CanonID(idt), Method: c.m, Params: CtlParams{T: "absent"}, Call: cp2,
+						Raw: raw, Class: "call-ok-meta/" + c09.CanonID(idt).T})
+				}
+			}
 		}
 	}
 	// undecodable buffers, binary and empty frames
